@@ -9,6 +9,12 @@ fn main() {
     let out = std::path::PathBuf::from(std::env::var("OUT_DIR").unwrap());
     println!("cargo:rerun-if-changed=src/gt.y");
     println!("cargo:rerun-if-changed=src/acts.y");
+    // The builder's up-to-date check does not notice a change of the *generator* (its cache string
+    // records lrpar's build timestamp, which cargo does not refresh when only sources change), so
+    // always regenerate from the current tree.
+    for f in ["gt.y.rs", "acts.y.rs"] {
+        let _ = std::fs::remove_file(out.join(f));
+    }
     let gt = CTParserBuilder::<DefaultLexerTypes<u32>>::new()
         .yacckind(YaccKind::Original(YaccOriginalActionKind::GenericParseTree))
         .grammar_path("src/gt.y")
